@@ -15,7 +15,8 @@ import (
 // use (append-mode regular files, directories, descriptors that survive unlink, mtimes from the
 // virtual clock). Every call is a scheduling point and is logged for the oracles.
 type FS struct {
-	FaultOps map[string]bool // kinds of call that may be failed by the explorer (nil = every kind)
+	FaultOps   map[string]bool        // kinds of call that may be failed by the explorer (nil = every kind)
+	Unwritable func(path string) bool // paths whose every write fails with ENOSPC (a full disk: part of the scenario, not a deviation)
 	// NoShortWrites: an injected write fault refuses the whole write (EIO), never stores half of it
 	NoShortWrites bool
 	nfd           int
@@ -207,6 +208,12 @@ func (fl *File) Write(b []byte) (int, error) {
 	if fl.Flag&(os.O_WRONLY|os.O_RDWR) == 0 {
 		f.log(FSCall{Op: "write", Path: fl.Path, Err: "EBADF", Bytes: len(b), FD: fl.ID, Data: string(b)})
 		return 0, pathErr("write", fl.Path, syscall.EBADF)
+	}
+	if f.Unwritable != nil && f.Unwritable(fl.Path) {
+		// a target that opens but refuses every write (full disk, exceeded quota, /dev/full): not an injected
+		// deviation but a property of the environment of this scenario
+		f.log(FSCall{Op: "write", Path: fl.Path, Err: "ENOSPC(persistent)", Bytes: len(b), FD: fl.ID, Data: string(b)})
+		return 0, pathErr("write", fl.Path, syscall.ENOSPC)
 	}
 	n := len(b)
 	var err error
